@@ -4,6 +4,6 @@ CONSTANTS
   NodeIds <- WNodeIds
   OpKinds = {}
   MaxStmts = 2
-  PoolFocus <- FocusAllW
+  PoolFocus <- W_C04Focus
 INVARIANTS EnvSound NamesSound NoCycle Room EmitReplay
 CHECK_DEADLOCK FALSE
